@@ -13,7 +13,7 @@ import random
 
 from harness import core
 
-CH = {1: 'a', 2: ' ', 3: '"', 4: "'", 5: '#', 6: '\\', 7: 'é', 8: '@[S]@', 9: '=', 10: ')', 11: 'VAL'}
+CH = {1: 'a', 2: ' ', 3: '"', 4: "'", 5: '#', 6: '\\', 7: 'é', 8: '@[S]@', 9: '=', 10: ')', 11: 'VAL', 12: '-contents-of'}
 SEP = '--SEP--'
 LINE_KINDS = {1: 'text line', 2: 'a @[S]@ b', 3: 'EOF ', 4: ' EOF', 5: '[setup]', 6: '# not a comment', 7: '',
               8: '"a\' b', 9: 'EOFX'}
@@ -54,7 +54,7 @@ def heredoc_cfg(kinds, max_lines, export=False):
 
 
 # ---------------------------------------------------------------- probes
-def probes_of(case):
+def probes_of(case, keep_opt=False):
     """One abstract source -> up to three probes (context, source text, expectation)."""
     src = s(case['src'])
     out = []
@@ -64,8 +64,9 @@ def probes_of(case):
     exp = None if case['listErr'] else [s(t) for t in case['list']] + (['tail'] if case['cont'] else [])
     out.append(dict(ctx='list', src=src, exp=exp, cont=bool(case['cont']) and not case['listErr']))
     # STRING as last argument (no token at all would trigger known finding D11: not this property's subject)
-    if case['ntok'] >= 1:
-        out.append(dict(ctx='string', src=src, exp=None if case['strErr'] else s(case['str'])))
+    # an unquoted option of the probing instruction as first word: not this syntax element (opt; only kept to explain D3)
+    if case['ntok'] >= 1 and (not case['strOpt'] or keep_opt):
+        out.append(dict(ctx='string', src=src, exp=None if case['strErr'] else s(case['str']), opt=bool(case['strOpt'])))
     # :> TEXT
     out.append(dict(ctx='text', src=src, exp=s(case['text'])))
     return out
@@ -205,7 +206,8 @@ def run(ctx):
     mc = ctx.tlc('Lexer', lexer_cfg(full, max_full + 1), coverage=True, name='mc')
     ctx.require_coverage(mc, ['Read'])
     cases, dev = {}, {}
-    for name, alpha, ml in (('full', full, max_full), ('quotes', small, max_small)):
+    for name, alpha, ml in (('full', full, max_full), ('quotes', small, max_small),
+                            ('option words', [1, 2, 3, 4, 12], max_full)):
         e = ctx.tlc('LexerExport', lexer_cfg(alpha, ml, export=True), workers=1, name='export-' + name, count=False,
                     timeout=3000)
         for c in e.printed_json('CASE'):
@@ -217,7 +219,7 @@ def run(ctx):
     probes, dprobes = [], []
     for k, c in cases.items():
         ps = probes_of(c)
-        ds = probes_of(dev[k])
+        ds = probes_of(dev[k], keep_opt=True)
         if len(ps) != len(ds):       # the deviation changes the number of tokens: compare context by context
             dmap = {p['ctx']: p for p in ds}
             ds = [dmap.get(p['ctx'], p) for p in ps]
@@ -228,13 +230,15 @@ def run(ctx):
     bad = 0
     for p, dp, r in zip(probes, dprobes, results):
         ctx.count()
-        if any(ch in p['src'] for ch in '"\'#\\@=)'):
+        if any(ch in p['src'] for ch in '"\'#\\@=)-'):
             ctx.nontrivial(p['ctx'] + ':' + p['src'])
         if agrees(p['exp'], r):
             continue
         bad += 1
         explained = None
         if dp['exp'] != p['exp'] and agrees(dp['exp'], r) and dp.get('cont') == p.get('cont'):
+            explained = 'D3'
+        if dp.get('opt') and not p.get('opt'):      # only with D3 is the first word the (unquoted) option
             explained = 'D3'
         ctx.fail('%s context: %r' % (p['ctx'], p['src']),
                  dict(kind='probe', probe=p, observed=r, with_deviation_D3=dp['exp']), explained_by=explained)
